@@ -273,12 +273,72 @@ pub fn run_session(run: &mut Run, rng: &mut Rng, is_client: bool, closed0: bool,
     exec(run, "sctpassoc", &text, "SctpInner::handle_packet(history)", nt, None, move || out);
 }
 
+/// oracle-only stream `sctpflood`: memory an established association RETAINS after a flood from its (DTLS-authenticated) peer.
+/// kind 0: DATA with a TSN gap that is never filled (`received_queue`), `size`-byte payloads; 1: in-order first/middle fragments of a
+/// message that never ends (`reassembly_buffer`); 2: DCEP OPEN on a new stream each time (`data_channels`, the channels are kept
+/// alive as the PeerConnection does); 3: ordered messages with SSN ahead of the expected one (`InboundStream.pending`).
+/// Oracle: retained ≤ 16·bytes received + 64 KiB, and every packet handled within the per-call deadline.
+pub fn run_flood(run: &mut Run, kind: u8, count: u32, size: usize) {
+    let case = format!("sctpflood {kind} {count} {size}");
+    let mut a = Assoc::new(false, false, 1);
+    let peer_tag = 0x0A0B_0C0Du32;
+    let mut p = header(0); chunk(&mut p, 1, 0, &init_value(peer_tag, 1 << 20, 100)); crc_fix(&mut p);
+    let (_, cookies) = a.feed(&p);
+    if let Some(c) = cookies.first() { let mut p = header(0x1122_3344); chunk(&mut p, 10, 0, c); crc_fix(&mut p); a.feed(&p); }
+    // two channels (streams 0 and 1, ordered, reliable) so that user data is reassembled and delivered, not dropped
+    for (k, sid) in [(0u32, 0u16), (1, 1)] { let mut p = header(0x1122_3344); chunk(&mut p, 0, 3, &data_value(100 + k, sid, 0, 50, &[3, 0, 0, 0, 0, 0, 0, 0, 0, 1, 0, 0, b'l'])); crc_fix(&mut p); a.feed(&p); }
+    let connected = format!("{:?}", a.sctp.verif_snapshot().state) == "Connected" && a.held.len() == 2;
+    let mut bytes_in = 0u64;
+    let mut slowest = std::time::Duration::ZERO;
+    let body = vec![0x55u8; size];
+    let panics0 = super::panic_count();
+    super::alloc_reset();
+    let r = { let mut ar = std::panic::AssertUnwindSafe(&mut a); let body = body.clone(); crate::catch(move || {
+        let mut bytes = 0u64; let mut slow = std::time::Duration::ZERO;
+        for k in 0..count {
+            let mut p = header(0x1122_3344);
+            match kind {
+                0 => chunk(&mut p, 0, 3, &data_value(102 + 2 + k, 0, 0, 53, &body)),
+                1 => chunk(&mut p, 0, if k == 0 { 2 } else { 0 }, &data_value(102 + k, 0, 0, 53, &body)),
+                2 => { let mut open = vec![3u8, 0, 0, 0, 0, 0, 0, 0, 0, 1, 0, 0]; open.push(b'l'); chunk(&mut p, 0, 3, &data_value(102 + k, ((k + 2) % 65536) as u16, 0, 50, &open)) }
+                _ => chunk(&mut p, 0, 3, &data_value(102 + k, 1, (k + 1) as u16, 53, &body)),
+            }
+            crc_fix(&mut p);
+            bytes += p.len() as u64;
+            let t0 = std::time::Instant::now();
+            let s = ar.sctp.clone(); let pk = Bytes::from(p);
+            let _ = ar.rt.block_on(async move { s.verif_handle_packet(pk).await });
+            slow = slow.max(t0.elapsed());
+            ar.drain_out(); let _ = hk::trace_take(ar.port);
+            while let Ok(dc) = ar.chan_rx.try_recv() { ar.held.push(dc); }
+        }
+        (bytes, slow)
+    }) };
+    match r { Ok((b, s)) => { bytes_in = b; slowest = s; } Err(msg) => run.fail(&format!("panic:SctpInner::handle_packet(flood):{}", super::panic_site(&msg)), &case, &msg) }
+    if super::panic_count() != panics0 && r_is_ok(&run.fails, &case) { run.fail("panic:SctpInner::handle_packet(flood)(task)", &case, "a task panicked during the flood"); }
+    let retained = super::alloc_retained().max(0) as u64;
+    let snap = a.sctp.verif_snapshot();
+    run.count_n(&format!("sctpflood:retained_per_input_byte_x100:{kind}:{size}"), retained * 100 / bytes_in.max(1));
+    run.count_n(&format!("sctpflood:queue_len:{kind}:{size}"), snap.received_queue.len() as u64);
+    run.count(&format!("sctpflood:connected:{connected}"));
+    if retained > 16 * bytes_in + 65536 {
+        run.fail(&format!("retain:SctpInner::handle_packet:{}", ["tsn-gap", "endless-fragments", "dcep-open-per-stream", "ssn-gap"][kind.min(3) as usize]), &case,
+            &format!("{retained} bytes retained after {count} packets ({bytes_in} bytes received)"));
+    }
+    if slowest > std::time::Duration::from_secs(2) { run.fail("hang:SctpInner::handle_packet(flood)", &case, &format!("slowest packet took {slowest:?}")); }
+    run.case("sctpflood", &format!("{kind} {count} {size}"), "noncompared", true);
+}
+fn r_is_ok(fails: &[crate::OracleFail], case: &str) -> bool { !fails.iter().any(|f| f.case == case) }
+
 pub fn special(run: &mut Run, rng: &mut Rng, thorough: bool) {
+    let k = if thorough { 30_000 } else { 3_000 };
+    for (kind, size) in [(0u8, 1usize), (0, 1100), (1, 1), (1, 1100), (2, 0), (3, 1), (3, 1100)] { run_flood(run, kind, k, size); }
     let n = if thorough { 30_000 } else { 1_500 };
     for i in 0..n { run_session(run, rng, i % 5 == 4, i % 7 == 6, None, true); }
 }
 
 pub fn replay_special(run: &mut Run, stream: &str, a: &[&str]) -> bool {
+    if stream == "sctpflood" && a.len() == 3 { run_flood(run, a[0].parse().unwrap_or(0), a[1].parse().unwrap_or(100), a[2].parse().unwrap_or(1)); return true; }
     if stream != "sctpassoc" || a.len() < 2 { return false; }
     let pk: Vec<Vec<u8>> = a[2..].iter().filter_map(|t| t.split(':').nth(1).map(unhex)).collect();
     let mut rng = Rng::new(1);
